@@ -971,7 +971,7 @@ def _(I, ctx, *a):
 @model('re:^core::intrinsics::(cold_path|assume|assert_inhabited)$', 're:^std::hint::(assert_unchecked|black_box)$', 're:^core::hint::assert_unchecked$',
        're:^core::ub_checks::.*$', 're:^std::intrinsics::(cold_path|assume)$')
 def _(I, ctx, *a): return UNIT
-@model('re:^(std::boxed::)?Box::<?.*>?::new_uninit$', 'Box::new_uninit')
+@model('re:^(std::boxed::)?Box::<?.*>?::new_uninit$', 'Box::new_uninit', 'std::boxed::Box::new_uninit')
 def _(I, ctx): return UninitBox()
 @model('std::boxed::box_assume_init_into_vec_unsafe', 'alloc::boxed::box_assume_init_into_vec_unsafe')
 def _(I, ctx, b): return VecV(list(deref(b).arr))
